@@ -129,6 +129,20 @@ CLAIMED = {
         "C12_getctl_refuted; t/60 pins the deviant teardown bytes): attributed only when the case switches the keypad on AND the oracle passes it with the "
         "keypad masked. Assumes the terminal starts in its power-on mode state. Trusted: VT.v mode semantics; model; extraction.",
    design="6/C12", technique="Coq proof over all control/pen/pause histories against VT mode state; byte-exact differential check with the real driver and toplevel instance; masked oracle for the recorded finding"),
+ "C08": dict(
+   text="PARTIAL by nature (memory safety is a run-time fact). Machine-checked proof (Coq 8.16, no axioms) over a HEAP-LEVEL ownership model of window.c "
+        "(cells with parent/first_child/next/refcount/closed fields, restack-queue nodes, alloc/free, every access to a freed or unallocated address = Fault): "
+        "for every event-free history, of any length, of a well-formed client (heap-independent ghost discipline link+extra references) the model never "
+        "faults (C08_no_fault_partial) and when every reference is dropped no window or queue cell stays allocated (C08_all_released_partial); heap invariant "
+        "preserved by every call (C08_step_partial), unref/destroy by mutual induction (C08_unref_destroy), purge completeness (C08_purge_complete), and the "
+        "copy-out bound for every text and length (C08_copy_bounded). Tie at the level of memory events: a lifecycle explorer over ALL object kinds (pens, "
+        "strings, render buffers, terminals, windows incl. key/mouse handlers that close/unref themselves or others) runs every case in its own process under "
+        "ASan/UBSan/LSan with exact allocation accounting; the model's verdict (Ok / Fault kind / leak) must equal the sanitizer's.",
+   note="Holds for the repaired code (fix: 1973d97, 77327ff, 09b4b0d, 36efd83, 28dc336; also covered: a693370 chpen params). Pinned code refuted in Coq "
+        "(C08_*_refuted witnesses). One recorded known finding (C08-mockterm-display-text-nul; t/20 relies on it). Key/mouse dispatch with re-entrant handlers is "
+        "in the executable model and the correspondence, not in the proved invariant; termination (fuel bound) not proved. Actual C accesses are checked by "
+        "sanitizers, not proved.",
+   design="6/C08", technique="Coq state-and-fault monad over an explicit heap, list-segment reasoning, mutual induction for unref/destroy; sanitizer-backed correspondence (model faults/leaks iff ASan/LSan reports), fork per case"),
 }
 
 NA_REASON = "not yet built in this revision: model/proof/correspondence for this property are scheduled (DESIGN.md section 10)"
